@@ -495,6 +495,10 @@ class Domain:
     def at_break(self, eng, loop, st, line, frame):
         pass
 
+    def refine_branch(self, eng, st):
+        """called on each of the two states of an `if` after its test has been assumed: a domain may simplify merged values that the new path condition decides"""
+        pass
+
     def at_return(self, node, st):
         pass
 
